@@ -121,6 +121,12 @@ def pool_entry(name):
             for q in getattr(o, "prerequisites", []) or []:
                 pre.add(q if isinstance(q, str) else getattr(q, "unique_id", str(q)))
         return "jcl", [{"rule": {rid: {"disable": True} for rid in sorted(pre) if rid in db}}]
+    if name == "mlc_yes":
+        # documented option of the array multiline-structure rules that the rules do not list in `configuration`
+        a, c = vsgapi.make_config()
+        f, r = vsgapi.build([""], a, c, configure=False)
+        d = {o.unique_id: {"move_last_comment": "yes"} for o in r.rules if hasattr(o, "move_last_comment") and not o.deprecated}
+        return "jcl", [{"rule": d}]
     if name == "spaces_bounds":
         # documented bound forms of number_of_spaces (docs/configuring_whitespace_rules.rst), never a plain 0
         rng = random.Random(hash_name(name))
